@@ -11,9 +11,11 @@
     set_node_attributes / set_edge_attributes {shape, …} · set_net_attr {k, v}
     clear {remove_net_attr} · copy {} · cleanup {isolates, relabel, in_place} · relabel {label_attribute}
     freeze {} · reset {} · snapshot {}
+    pickle {} · construct {attr}     -- clone routes of C02/Copy.lean (`DHG.clone`); the history continues on the clone
 -/
 import XgiModel.Proto
 import XgiModel.C02.DHG
+import XgiModel.C02.Copy
 open Lean Xgi.Proto
 
 namespace Xgi.DHG.Drive
@@ -146,10 +148,21 @@ def op? (j : Json) : Option Op := do
   | "freeze" => pure .freeze
   | _ => none
 
+/-- `pickle.loads(pickle.dumps(DH))` / `DiHypergraph(DH, **attr)`: the history continues on what the call returned -/
+def cloneBy (s : DHG) (c : Option CloneRoute) : DHG × Json :=
+  match c with
+  | none => (s, badOp)
+  | some c =>
+    match DHG.clone s c with
+    | none => (s, Json.mkObj [("out", "unmodelled")])
+    | some (s', o) => (s', respond s' o)
+
 def handle (s : DHG) (j : Json) : DHG × Json :=
   match getStr? j "op" with
   | some "reset" => (DHG.empty, respond DHG.empty .ok)
   | some "snapshot" => (s, respond s .ok)
+  | some "pickle" => cloneBy s (some .pickle)
+  | some "construct" => cloneBy s ((getAttrs? j "attr").map .ctor)
   | _ =>
     match op? j with
     | none => (s, badOp)
